@@ -664,6 +664,20 @@ func (e *env) relInstant(r rhs) int64 {
 	return now.AddDate(0, n, 0).UnixNano()
 }
 
+// monthDiffers: does the harness's OWN calendar-month arithmetic (time.AddDate, not the code under test) give a
+// different instant than DuckDB for NOW() ± INTERVAL 'n months'? Only then the statement is in the known
+// relative-month class (day-of-month overflow vs clamping); otherwise a month bound is expected to be exact.
+func (e *env) monthDiffers(r rhs) bool {
+	sg := "-"
+	if r.plus {
+		sg = "+"
+	}
+	var us sql.NullInt64
+	nowLit := "TIMESTAMPTZ '" + utc(e.now).Format("2006-01-02 15:04:05.000000") + "+00'"
+	must(e.sqldb.QueryRow(fmt.Sprintf("SELECT epoch_us(%s %s INTERVAL '%d months')", nowLit, sg, r.n)).Scan(&us))
+	return e.relInstant(r) != us.Int64*1000
+}
+
 // classify names the class of a statement by the first feature (fixed priority) that takes it out of the class on
 // which the Lean theorem C18_partial proves pruning exact; "exact-class" = inside that class.
 func (e *env) classify(q *query, cached, newPart bool, tr *pruning.TimeRange) string {
@@ -692,7 +706,8 @@ func (e *env) classify(q *query, cached, newPart bool, tr *pruning.TimeRange) st
 			if i == 1 && !a.between {
 				break
 			}
-			if r.kind == 'R' && r.unit == "month" {
+			if r.kind == 'R' && r.unit == "month" && r.sp != 3 && e.monthDiffers(r) {
+				// known class: Go AddDate(0,n,0) overflows the day of month where DuckDB clamps it
 				month = true
 			}
 			upper := (a.between && i == 1) || (!a.between && a.op == "le")
@@ -804,6 +819,42 @@ func (e *env) doQuery(q *query, cached bool) {
 	e.c.Op(op, fmt.Sprintf("range=%s %s rows=%s/%d", rng, strings.Join(ps, " "), np, len(rowsOff)))
 	e.logSQL(op, sqlText)
 	e.newPartSinceQ, e.compactedSinceQ = false, false
+
+	// monitor on the path generation itself: every stored file holding a row inside the extracted range (and not
+	// before minPartitionDate) must be matched by one of the globs of a pruned plan, whatever the statement is
+	if !cached && tr != nil && errOn == nil {
+		for _, t := range tbls {
+			if plans[t] == "ALL" || plans[t] == "" {
+				continue
+			}
+			listed := map[string]bool{}
+			for _, p := range strings.Split(plans[t], ",") {
+				listed[p] = true
+			}
+			for _, f := range e.files {
+				if f.tbl != t {
+					continue
+				}
+				dir := utc(f.idx * hourNs).Format("2006/01/02/15")
+				if f.day {
+					dir = utc(f.idx * dayNs).Format("2006/01/02")
+				}
+				if listed[dir] {
+					continue
+				}
+				for _, r := range f.rows {
+					rt := utc(r.t * usNs)
+					if !rt.Before(tr.Start) && rt.Before(tr.End) && r.t*usNs >= e.minDate {
+						e.c.Fail("file-not-covered:GeneratePartitionPaths",
+							fmt.Sprintf("the pruned path list for range [%s, %s) has no glob for partition %s/%s although it stores a row at %s",
+								tr.Start.Format(time.RFC3339), tr.End.Format(time.RFC3339), t, dir, rt.Format(time.RFC3339Nano)),
+							fmt.Sprintf("now=%d | db=%s | layout: %s | sql: %s | pruned plan: %s", e.now, e.dbName, e.layoutText(), sqlText, strings.Join(ps, " ")))
+						break
+					}
+				}
+			}
+		}
+	}
 
 	class := e.classify(q, cached, newPart, tr)
 	if class == "exact-class" && cached {
@@ -1025,6 +1076,9 @@ func (e *env) randomLayout() scen {
 		{"monthend", ts("2024-03-01 10:00:00"), ts("2024-03-31 12:00:00")},
 		{"monthend", ts("2023-03-01 00:00:00"), ts("2023-03-30 23:00:00")},
 		{"future", ts("2024-03-16 20:00:00"), ts("2024-03-15 15:00:00")},
+		{"yearago", ts("2023-03-17 12:00:00"), ts("2024-03-15 15:00:00")},
+		{"yearahead", ts("2025-03-12 12:00:00"), ts("2024-03-15 15:00:00")},
+		{"yearago", ts("2022-06-03 00:00:00"), ts("2024-05-31 18:00:00")},
 		{"recent", ts("2024-12-31 22:00:00"), ts("2025-01-01 02:00:00")},
 	}
 	sc := vh.Pick(e.r, scs)
@@ -1179,6 +1233,50 @@ func (e *env) edgeGrid() {
 	e.addFile("cpu", false, hourIdx("1969-12-31 23:00:00"), []row{e.rowAt("1969-12-31 23:30:00", 1)})
 	e.addFile("cpu", false, hourIdx("1970-01-01 00:00:00"), []row{e.rowAt("1970-01-01 00:30:00", 1)})
 	q("s", And(A('t', "ge", e.L("1969-12-31 00:00:00", 0)), A('t', "lt", e.L("1970-01-02 00:00:00", 0))), nil)
+
+	// two-sided windows crossing 1..2 midnights whose END time-of-day is earlier than the START time-of-day, with the
+	// daily-compacted (day-level) file on the first / middle / last day and hour files elsewhere
+	for _, compacted := range []string{"2024-03-14", "2024-03-15", "2024-03-16"} {
+		e.reset()
+		e.setNow(ts("2024-03-17 12:00:00"))
+		for _, d := range []string{"2024-03-14", "2024-03-15", "2024-03-16"} {
+			if d == compacted {
+				e.addFile("cpu", true, dayIdx(d+" 00:00:00"), []row{e.rowAt(d+" 03:10:00", 1), e.rowAt(d+" 23:20:00", 2)})
+			} else {
+				e.addFile("cpu", false, hourIdx(d+" 03:00:00"), []row{e.rowAt(d+" 03:10:00", 1)})
+				e.addFile("cpu", false, hourIdx(d+" 23:00:00"), []row{e.rowAt(d+" 23:20:00", 2)})
+			}
+		}
+		q("s", And(A('t', "ge", e.L("2024-03-14 22:00:00", 2)), A('t', "lt", e.L("2024-03-16 05:30:00", 2))), nil)
+		q("s", And(A('t', "gt", e.L("2024-03-15 22:00:00", 1)), A('t', "lt", e.L("2024-03-16 05:30:00", 1))), nil)
+		q("s", &pred{kind: 'A', a: batom{between: true, col: 't', r: e.L("2024-03-15 23:15:00", 1), r2: e.L("2024-03-16 03:45:00", 1)}}, nil)
+		q("s", And(A('t', "ge", e.L("2024-03-14 05:30:00", 1)), A('t', "lt", e.L("2024-03-16 22:00:00", 1))), nil)
+	}
+
+	// calendar-month bounds where Go's AddDate and DuckDB agree (no day-of-month overflow): N months is NOT N*30 days.
+	// rows sit between now-12 months and now-360 days, between now-1 month (31-day month) and now-30 days, and, for
+	// upper bounds, between now+360 days and now+12 months
+	e.reset()
+	e.setNow(ts("2024-03-15 15:00:00"))
+	e.addFile("cpu", false, hourIdx("2023-03-17 10:00:00"), []row{e.rowAt("2023-03-17 10:30:00", 1)})
+	e.addFile("cpu", false, hourIdx("2023-09-16 08:00:00"), []row{e.rowAt("2023-09-16 08:30:00", 1)})
+	e.addFile("cpu", false, hourIdx("2024-03-15 10:00:00"), []row{e.rowAt("2024-03-15 10:30:00", 1)})
+	e.addFile("cpu", false, hourIdx("2025-03-01 10:00:00"), []row{e.rowAt("2025-03-01 10:30:00", 1)})
+	e.addFile("cpu", false, hourIdx("2025-03-12 10:00:00"), []row{e.rowAt("2025-03-12 10:30:00", 1)})
+	q("s", A('t', "ge", rhs{kind: 'R', n: 12, unit: "month"}), nil)
+	q("s", A('t', "gt", rhs{kind: 'R', n: 6, unit: "month", sp: 1}), nil)
+	q("s", And(A('t', "ge", e.L("2025-02-20 00:00:00", 1)), A('t', "lt", rhs{kind: 'R', plus: true, n: 12, unit: "month", sp: 1})), nil)
+	q("s", And(A('t', "ge", rhs{kind: 'R', n: 24, unit: "month"}), A('t', "le", rhs{kind: 'R', n: 2, unit: "week"})), nil)
+	e.reset()
+	e.setNow(ts("2024-01-15 15:00:00"))
+	e.addFile("cpu", false, hourIdx("2023-12-15 20:00:00"), []row{e.rowAt("2023-12-15 20:30:00", 1)})
+	e.addFile("cpu", false, hourIdx("2024-01-10 10:00:00"), []row{e.rowAt("2024-01-10 10:30:00", 1)})
+	q("s", A('t', "ge", rhs{kind: 'R', n: 1, unit: "month"}), nil)
+	e.reset()
+	e.setNow(ts("2024-02-29 06:00:00"))
+	e.addFile("cpu", false, hourIdx("2023-03-01 10:00:00"), []row{e.rowAt("2023-03-01 10:30:00", 1)})
+	e.addFile("cpu", false, hourIdx("2024-02-20 10:00:00"), []row{e.rowAt("2024-02-20 10:30:00", 1)})
+	q("s", A('t', "ge", rhs{kind: 'R', n: 12, unit: "month"}), nil)
 
 	// NOW() - INTERVAL 'n month' at a month end
 	e.reset()
@@ -1443,6 +1541,29 @@ func main() {
 			case 2:
 				q.kind, q.alias = vh.Pick(e.r, []string{"b", "B"}), false
 				q.p2 = e.genPred(1, 0, 0)
+			}
+			if j == 1 {
+				// a two-sided window with independent start / end time-of-day crossing 1..3 midnights
+				var days []int64
+				for _, f := range e.files {
+					if f.tbl == "cpu" {
+						if f.day {
+							days = append(days, f.idx)
+						} else {
+							days = append(days, floorDiv(f.idx, 24))
+						}
+					}
+				}
+				d1 := vh.Pick(e.r, days)
+				d0 := d1 - int64(e.r.Range(1, 3))
+				ph0 := int64(e.r.Range(12*60, 24*60-1)) * 60e9
+				ph1 := int64(e.r.Range(1, 11*60)) * 60e9
+				lo, hi := e.litRhs(d0*dayNs+ph0), e.litRhs(d1*dayNs+ph1)
+				q = &query{kind: "s", hdr: e.r.Bool(), p1: And(A('t', vh.Pick(e.r, []string{"ge", "gt"}), lo), A('t', vh.Pick(e.r, []string{"lt", "le"}), hi))}
+				if e.r.Chance(30) {
+					q.p1 = &pred{kind: 'A', a: batom{between: true, col: 't', r: lo, r2: hi}}
+				}
+				e.c.Tag("gen:midnight-window")
 			}
 			e.doQuery(q, false)
 			if e.r.Chance(15) {
